@@ -17,6 +17,7 @@ from concurrent.futures import ThreadPoolExecutor
 
 HERE = os.path.dirname(os.path.dirname(os.path.abspath(__file__)))
 sys.path.insert(0, HERE)
+SEEDS: list = []
 
 
 def scratch_copy():
@@ -34,9 +35,11 @@ def run_tests(d):
     return last
 
 
-def run_check(d, prop, tier):
+def run_check(d, prop, tier, seed=None):
     rd = tempfile.mkdtemp(prefix="verif_replays_", dir="/tmp")
     env = dict(os.environ, PYOAK_SRC=d + "/src", VERIF_NO_EVIDENCE="1", VERIF_REPLAY_DIR=rd, VERIF_JOBS=os.environ.get("SELFTEST_JOBS", "8"))
+    if seed is not None:
+        env["VERIF_SEED"] = str(seed)
     p = subprocess.run(["/venv/bin/python", os.path.join(HERE, "run_check.py"), prop, "--tier", tier], cwd=HERE, env=env, capture_output=True, text=True, timeout=3600)
     mechs = sorted({l.split("mechanism=")[1].split(" ")[0] for l in p.stdout.splitlines() if "mechanism=" in l})
     shutil.rmtree(rd, ignore_errors=True)
@@ -56,7 +59,13 @@ def one(job):
             if not os.path.exists(os.path.join(HERE, "checks", prop.lower() + ".py")):
                 res[prop] = ("no-check", [], "")
                 continue
-            res[prop] = run_check(d, prop, tier)
+            if SEEDS:
+                # robustness: the edit must be caught under every seed; report the worst exit code
+                rs = [run_check(d, prop, tier, sd) for sd in SEEDS]
+                worst = next((r for r in rs if r[0] != 1), rs[0])
+                res[prop] = (worst[0], sorted({m for r in rs for m in r[1]}), f"caught under {sum(1 for r in rs if r[0] == 1)}/{len(rs)} seeds {SEEDS}")
+            else:
+                res[prop] = run_check(d, prop, tier)
         return (name, props, "ok", res, tests)
     finally:
         shutil.rmtree(d, ignore_errors=True)
@@ -69,7 +78,10 @@ def main():
     ap.add_argument("--skip-tests", action="store_true")
     ap.add_argument("--tier", default="quick")
     ap.add_argument("--jobs", type=int, default=2)
+    ap.add_argument("--seeds", default="", help="comma separated VERIF_SEEDs: every edit must be caught under each of them")
     args = ap.parse_args()
+    global SEEDS
+    SEEDS = [int(x) for x in args.seeds.split(",") if x]
     from mutants.specs import M
 
     jobs = []
@@ -105,7 +117,7 @@ def main():
     caught = sum(1 for r in rows for p, v in r[3].items() if v[0] == 1)
     total = sum(len(r[3]) for r in rows)
     print(f"caught {caught}/{total}")
-    if not args.only and not args.props:
+    if not args.only and not args.props and not SEEDS:
         with open(os.path.join(HERE, "SELFTEST.md"), "w") as f:
             f.write("# Self-test: breaking edits vs quick checks\n\n| edit | repo tests with edit | property: exit code (1 = caught) | mechanisms reported |\n|---|---|---|---|\n")
             for name, props, st, res, tests in rows:
